@@ -917,6 +917,8 @@ def rule_input(rep: Report, rid="C15.input") -> None:
             return any(a is not None and a != t and rooted_in_doc(a, depth + 1) for a in alts)
         if depth < 6 and isinstance(t, tuple) and t and t[0] == "cond":
             return rooted_in_doc(t[2], depth + 1) or rooted_in_doc(t[3], depth + 1)
+        if depth < 6 and isinstance(t, tuple) and t and t[0] == "bool":
+            return any(rooted_in_doc(v, depth + 1) for v in t[2])        # ``doc_list or []`` is the document's list when it is non-empty
         if isinstance(t, tuple) and t and t[0] == "elem":
             it = I.loops.get(t[1], {}).get("iter")
             if it is not None:
